@@ -190,3 +190,9 @@ def modes(tier):
 
 from lagcommon import StubbornMode, STUBBORN_RULE
 RULE = RULE + STUBBORN_RULE
+
+# the hub's cancel bookkeeping over all histories of the translated code (Relay/Tie/HubDcs.lean): a deny reaches every live connection of the booking
+from tiecommon import TIE_HUB, TIE_HUB_NOTE, TIE_HUB_ASSUMPTION
+THEOREMS = THEOREMS + TIE_HUB
+RULE = TIE_HUB_NOTE + RULE
+ASSUMPTIONS = ASSUMPTIONS + [TIE_HUB_ASSUMPTION]
